@@ -1,6 +1,7 @@
 import GeomV.C04.Model
 import GeomV.C04.Spec
 import GeomV.C04.NaN
+import GeomV.C04.SpecNaN
 /-!
 Driver for C04: `geomv_c04 judge` reads `<input> => <implementation's answer>` lines and prints
   OK <class> | DIFF <class> <why> (implementation ≠ model) | SPEC <class> <why> (answer violates Spec).
@@ -41,6 +42,7 @@ structure GeomAns where
   ptsNoLen : Bool
   pts : List (Pt UInt64)
   indep : Bool
+  beyond : Option (Option (Pt UInt64))   -- the call after the last vertex: absent | panic | the point returned
   bnd : Option (Option (UInt64 × UInt64 × UInt64 × UInt64))   -- none = panic, some none = nil
   again : Bool
   swap : Option (Option (Nat × Bool × List (Pt UInt64) × Option (Option (UInt64 × UInt64 × UInt64 × UInt64))))
@@ -63,6 +65,12 @@ def pGeomAns (t : Tok) : Option GeomAns := do
   let (indep, t) := match t with
     | "indep" :: d :: t => (d == "1", t)
     | _ => (true, t)
+  let (beyond, t) ← match t with
+    | "beyond" :: "panic" :: t => pure (some none, t)
+    | "beyond" :: "ok" :: x :: y :: t => do
+      let x ← parseU64 x; let y ← parseU64 y
+      pure (some (some (⟨x, y⟩ : Pt UInt64)), t)
+    | t => pure (none, t)
   let (bnd, t) ← match t with
     | "bnd" :: "panic" :: t => pure (none, t)
     | "bnd" :: t => do let (r, t) ← pBoxRes t; pure (some r, t)
@@ -89,7 +97,7 @@ def pGeomAns (t : Tok) : Option GeomAns := do
       | "bnd" :: t => do let (r, _) ← pBoxRes t; pure (some (some (n, st == "ok", ps, some r)))
       | _ => none
     | _ => none
-  pure { len := len, ptsOk := ptsOk, ptsNoLen := noLen, pts := pts, indep := indep, bnd := bnd, again := again, swap := swap, hist := hist, mutated := mutd }
+  pure { len := len, ptsOk := ptsOk, ptsNoLen := noLen, pts := pts, indep := indep, beyond := beyond, bnd := bnd, again := again, swap := swap, hist := hist, mutated := mutd }
 
 def geomClass : BGeom → String
   | .point _ => "point" | .multiPoint _ => "multipoint" | .lineString _ => "linestring"
@@ -181,6 +189,26 @@ def judgeGeomNaN (g : BGeom) (cls0 : String) (rhs : Tok) : String :=
     | none =>
       let nvq (q : UInt64 × UInt64 × UInt64 × UInt64) : Box (NV FKey) :=
         ⟨⟨nvOfBits q.1, nvOfBits q.2.1⟩, ⟨nvOfBits q.2.2.1, nvOfBits q.2.2.2⟩⟩
+      -- the envelope clause read with NaN (SpecNaN.lean: an axis without NaN has non-NaN sides; a non-NaN side is an
+      -- attained bound of the non-NaN coordinates of its axis), on the implementation's answers; proved for the model
+      -- (C04_nan_envelope / C04_nan_exec) for geometries without `*Bounds` members
+      let vsN := vertices (geomNV g)
+      let specB : Option String :=
+        if !noBoxes g then none else
+        match a.bnd with
+        | none => some "Bounds-panicked"
+        | some none => some "Bounds-nil"
+        | some (some q) =>
+          if !isEnvelopeNaNB vsN (nvq q) then some "Bounds-side-is-not-the-attained-bound-of-the-non-NaN-coordinates-of-its-axis"
+          else match a.hist with
+            | none => none
+            | some (some (some q2)) =>
+              if isEnvelopeNaNB vsN (nvq q2) then none
+              else some "Bounds-depends-on-call-history:-after-the-caller-mutated-an-earlier-result-a-side-is-not-the-attained-bound-of-its-axis"
+            | _ => some "Bounds-panicked-or-nil-after-the-caller-mutated-an-earlier-result"
+      match specB with
+      | some why => s!"SPEC {cls} {why}"
+      | none =>
       match boundsG (geomNV g), a.bnd with
       | .ok b, some (some q) =>
         if nvq q != b then s!"DIFF {cls} bounds differ from the model with NaN"
@@ -273,6 +301,16 @@ def judgeGeom (g : BGeom) (rhs : Tok) : String :=
         | .error _, none => none
         | .ok _, _ => some "bounds model=ok impl=panic/nil"
         | .error e, some _ => some s!"bounds model=fault-{showFault e}"
+      -- the call after the last vertex (unspecified by the property; what the model does is C04_points_exhausted)
+      let dBey : Option String := match a.beyond with
+        | none => none
+        | some r =>
+          match @beyondLen UInt64 bitsLT bitsDecLT g, r with
+          | .ok v, some w => if v == w then none else some "call-beyond-Len model-returns-another-point"
+          | .ok _, none => some "call-beyond-Len model=ok impl=panic"
+          | .error _, none => none
+          | .error e, some _ => some s!"call-beyond-Len model=fault-{showFault e} impl=ok"
+      let dPts := match dPts with | some w => some w | none => dBey
       match dLen, dPts, dBnd with
       | none, none, none => s!"OK {cls}"
       | some w, _, _ => s!"DIFF {cls} {w}"
